@@ -19,7 +19,7 @@ META = {
     'outside': ['Bspline: evaluation is inside compiled scipy.interpolate (only the wiring partial == derivative spline and zero in other coordinates is checked on concrete knots)',
                 'IndicatorFunction (not differentiable by design)', 'PeriodicGaussFunction.partial2 / Bspline.partial2 raise NotImplementedError by design'],
     'assumptions': ['sin, cos, exp are the usual functions: only sin\'=cos, cos\'=-sin, exp\'=exp and sin(-u)=-sin u, cos(-u)=cos u are used'],
-    'tv_per_scenario': {'quick': 0, 'thorough': 0},
+    'tv_per_scenario': {'quick': 1000, 'thorough': 1000},
 }
 
 
